@@ -86,6 +86,32 @@ type zTimed struct {
 	Pair [2]zInner `serix:",lenPrefix=uint8"`
 }
 
+// slice elements with an optional pointer; a named string type whose registered settings (uint16 prefix) are
+// overridden by the struct tag (uint8 prefix); a tiny optional; a map with pointer values
+type zTiny struct {
+	V uint8 `serix:""`
+}
+
+type zOptElem struct {
+	Opt *zTiny `serix:",optional"`
+	K   uint8  `serix:""`
+}
+
+type zName string
+
+type zList struct {
+	L []zOptElem `serix:",lenPrefix=uint8"`
+	N zName      `serix:",lenPrefix=uint8"`
+}
+
+type zOptTiny struct {
+	Opt *zTiny `serix:",optional"`
+}
+
+type zPtrMap struct {
+	M map[uint8]*zTiny `serix:",lenPrefix=uint8"`
+}
+
 type zPair struct {
 	Pair [2]zSquare `serix:",lenPrefix=uint8"`
 }
@@ -127,6 +153,7 @@ func zAPI() *API {
 		Min: 0, Max: 3, MustOccur: serializer.TypePrefixes{uint32(100): struct{}{}},
 		ValidationMode: serializer.ArrayValidationModeAtMostOneOfEachTypeByte,
 	})))
+	must(api.RegisterTypeSettings(zName(""), TypeSettings{}.WithLengthPrefixType(LengthPrefixTypeAsUint16)))
 	must(api.RegisterTypeSettings(zUMap{}, TypeSettings{}.WithLengthPrefixType(LengthPrefixTypeAsByte).WithLexicalOrdering(false)))
 	must(api.RegisterTypeSettings(zCoded{}, TypeSettings{}.WithObjectType(uint32(7))))
 	must(api.RegisterValidator(zCoded{}, func(_ context.Context, c zCoded) error {
@@ -209,13 +236,13 @@ func zShapeEq(a, b zShape) bool {
 // forward), Decode yields an equal value and consumes exactly the bytes produced (C01), and a second Encode gives
 // identical bytes (also with the map filled in another order).
 //
-//verif:h prop=C01 cover=nums,bytes,opt-nil,opt-set,coll,big,coded,refused,unordered-map,timed,strict steps=3000000 runs=3000000 timeout=600/900 reversemaps=1
+//verif:h prop=C01 cover=nums,bytes,opt-nil,opt-set,coll,big,coded,refused,unordered-map,timed,strict,list,ptrmap steps=3000000 runs=3000000 timeout=600/900 reversemaps=1
 func H_C01_serix() { zRoundTrip() }
 
 // H_C03_serix_layout: the same exploration registered under C03 (its assertions include the comparison of Encode's
 // output with the reference layout written by hand in this file).
 //
-//verif:h prop=C03 cover=nums,bytes,opt-nil,opt-set,coll,big,coded,refused,unordered-map,timed,strict steps=3000000 runs=3000000 timeout=600/900 reversemaps=1
+//verif:h prop=C03 cover=nums,bytes,opt-nil,opt-set,coll,big,coded,refused,unordered-map,timed,strict,list,ptrmap steps=3000000 runs=3000000 timeout=600/900 reversemaps=1
 func H_C03_serix_layout() { zRoundTrip() }
 
 func zRoundTrip() {
@@ -223,7 +250,72 @@ func zRoundTrip() {
 	ctx := context.Background()
 	opts := zOpts()
 	validating := len(opts) > 0
-	switch verifrt.Choose("shape", 9) {
+	switch verifrt.Choose("shape", 11) {
+	case 9:
+		v := &zList{N: zName(verifrt.Bytes("name", 1))}
+		if len(v.N) == 1 {
+			verifrt.Assume(v.N[0] < 0x80)
+		}
+		for k, n := 0, verifrt.Choose("n", 3); k < n; k++ {
+			e := zOptElem{K: verifrt.U8("k")}
+			if verifrt.Choose("opt", 2) == 1 {
+				e.Opt = &zTiny{V: verifrt.U8("ov")}
+			}
+			v.L = append(v.L, e)
+		}
+		enc, err := api.Encode(ctx, v, opts...)
+		ref := []byte{byte(len(v.L))}
+		for _, e := range v.L {
+			if e.Opt == nil {
+				ref = zCat(ref, zLE(0, 4), []byte{e.K})
+			} else {
+				ref = zCat(ref, zLE(1, 4), []byte{e.Opt.V, e.K})
+			}
+		}
+		ref = zCat(ref, []byte{byte(len(v.N))}, []byte(v.N)) // the struct tag's uint8 prefix wins over the registered uint16
+		verifrt.Assert(err == nil && bytes.Equal(enc, ref), "Encode of slice elements with optional fields / a named string with a tag override differs from the documented layout")
+		out := &zList{}
+		n, derr := api.Decode(ctx, enc, out, opts...)
+		verifrt.Assert(derr == nil && n == len(enc) && len(out.L) == len(v.L), "Decode failed or did not consume exactly the bytes produced (slice elements with optional fields)")
+		same := out.N == v.N
+		for k := range v.L {
+			if k >= len(out.L) {
+				break
+			}
+			same = verifrt.And(same, out.L[k].K == v.L[k].K)
+			if v.L[k].Opt == nil {
+				same = verifrt.And(same, out.L[k].Opt == nil)
+			} else {
+				same = verifrt.And(same, out.L[k].Opt != nil && out.L[k].Opt.V == v.L[k].Opt.V)
+			}
+			for j := 0; j < k; j++ {
+				if out.L[k].Opt != nil {
+					same = verifrt.And(same, out.L[k].Opt != out.L[j].Opt) // no aliasing between decoded elements
+				}
+			}
+		}
+		verifrt.Assert(same, "Decode(Encode(v)) differs from v (slice elements with optional fields / named string)")
+		verifrt.Cover("list")
+	case 10:
+		v := &zPtrMap{M: map[uint8]*zTiny{}}
+		k0 := verifrt.U8("k0")
+		if verifrt.Choose("entries", 2) == 1 {
+			v.M[k0] = &zTiny{V: verifrt.U8("v0")}
+		}
+		enc, err := api.Encode(ctx, v, opts...)
+		ref := []byte{byte(len(v.M))}
+		if len(v.M) == 1 {
+			ref = append(ref, k0, v.M[k0].V)
+		}
+		verifrt.Assert(err == nil && bytes.Equal(enc, ref), "Encode of a map with pointer values differs from the documented layout")
+		out := &zPtrMap{}
+		n, derr := api.Decode(ctx, enc, out, opts...)
+		verifrt.Assert(derr == nil && n == len(enc) && len(out.M) == len(v.M), "Decode failed or did not consume exactly the bytes produced (map with pointer values)")
+		if len(v.M) == 1 {
+			got := out.M[k0]
+			verifrt.Assert(got != nil && got.V == v.M[k0].V, "Decode(Encode(v)) differs from v (map with pointer values)")
+		}
+		verifrt.Cover("ptrmap")
 	case 7:
 		ns := verifrt.I64("ns")
 		verifrt.Assume(ns >= 0)
@@ -482,14 +574,20 @@ func zRoundTrip() {
 // consumed bytes (C03 reverse).
 //
 //verif:h prop=C02 p.maxlen=5/7 cover=accepted,rejected steps=3000000 runs=3000000 timeout=600/900 maxvals=300
-func H_C02_serix() { zDecodeArbitrary(false) }
+func H_C02_serix() { zDecodeArbitrary(false, -1) }
 
 // H_C03_serix_canonical: the validating decoder only (C03 reverse direction).
 //
 //verif:h prop=C03 p.maxlen=5/7 cover=accepted,rejected,canonical steps=3000000 runs=3000000 timeout=600/900 maxvals=300
-func H_C03_serix_canonical() { zDecodeArbitrary(true) }
+func H_C03_serix_canonical() { zDecodeArbitrary(true, -1) }
 
-func zDecodeArbitrary(canonical bool) {
+// H_C03_serix_optional: the same for the optional-field target alone, with inputs long enough to hold a length
+// marker that is larger than the field it announces.
+//
+//verif:h prop=C03 p.maxlen=6/8 cover=accepted,rejected,canonical steps=3000000 runs=3000000 timeout=600/900 maxvals=300
+func H_C03_serix_optional() { zDecodeArbitrary(true, 8) }
+
+func zDecodeArbitrary(canonical bool, only int) {
 	api := zAPI()
 	ctx := context.Background()
 	b := verifrt.Bytes("b", verifrt.Param("maxlen", 5))
@@ -502,7 +600,15 @@ func zDecodeArbitrary(canonical bool) {
 	}
 	validating := len(opts) > 0
 	var target any
-	switch verifrt.Choose("shape", 8) {
+	shape := only
+	if shape < 0 {
+		shape = verifrt.Choose("shape", 10)
+	}
+	switch shape {
+	case 8:
+		target = &zOptTiny{}
+	case 9:
+		target = &zPtrMap{}
 	case 7:
 		target = &zPair{}
 	case 5:
